@@ -45,8 +45,11 @@ White == {9, 10, 11, 12, 13, 32, 133, 160}
 RECURSIVE LStrip(_)
 LStrip(s) == IF s # <<>> /\ Head(s) \in White THEN LStrip(Tail(s)) ELSE s
 Strip(s) == Reverse(LStrip(Reverse(LStrip(s))))
-Slugify(t) == IF SlugFn = "reverse" THEN Reverse(t)
-              ELSE Clean(LowerAll(IF DevNoStrip THEN t ELSE Strip(t)))
+(* the title text handed to the slug function: the content of the text and inline-code tokens; the line *)
+(* breaks of a setext heading written over several lines are not part of it                           *)
+TitleText(t) == SelectSeq(t, LAMBDA c : c # 10)
+Slugify(t) == IF SlugFn = "reverse" THEN Reverse(TitleText(t))
+              ELSE Clean(LowerAll(IF DevNoStrip THEN TitleText(t) ELSE Strip(TitleText(t))))
 
 (* decimal digits of k >= 1 *)
 RECURSIVE Digits(_)
